@@ -767,6 +767,10 @@ def run(tier, rep, only=None):
 def replay(path):
     v = json.load(open(path))["violation"]
     name = v["obligation"]
+    if name.startswith("transport/"):
+        from props import c17
+
+        return c17.replay(path)
     if name.startswith("request/"):
         prepare()
         parts = name.split("/")
